@@ -88,6 +88,18 @@ class Recorder:
         self.fields_for = None   # schema whose `env A` line is current
         self.label_codes = {}
 
+    def reset_tables(self):
+        """a new schema: what model_validate / the coercion helper answer belongs to the new class"""
+        self.table = {}
+        self.texts = {}
+        self.calls = []
+        self.pending = []
+        self.prim_done = set()
+        self.dict_done = set()
+        self.ofd_done = set()
+        self.fields_for = None
+        self.label_codes = {}
+
     # -- interning -------------------------------------------------------------------------------------
     def jid(self, v):
         if v is None:
@@ -531,7 +543,7 @@ class C11(Prop):
     thorough_deadline_s = 800
     all_branches = ["hit", "fail", "hitx:s", "hitx:e", "hitx:l", "hitx:r", "failx", "err:json", "err:validation",
                     "err:noValidJson", "err:noJson", "err:msg-jd", "err:msg-ve", "err:msg-other",
-                    "conv:0", "conv:1", "conv:2", "conv:3", "conv:4", "conv:raise"]
+                    "conv:0", "conv:1", "conv:2", "conv:3", "conv:4", "conv:raise", "heal:v", "heal:h", "heal:d"]
     assumptions = [
         "json.loads, re.findall, re.sub, schema.model_validate and Chaperone._coerce_types_tracked are environment: "
         "arbitrary functions that return or raise (the theorems hold for every such environment); the harness "
@@ -559,7 +571,9 @@ class C11(Prop):
     def setup(self, ctx):
         import_repo()
         import operon_ai.organelles.chaperone as m
+        import operon_ai.healing.chaperone_loop as loop_mod
         self.m = m
+        self.loop_mod = loop_mod
         self.rec_json = RecJson()
         self.rec_re = RecRe()
         m.json = self.rec_json
@@ -593,6 +607,22 @@ class C11(Prop):
         self.strat_letter = {v: k for k, v in self.strat.items()}
         self.pattern_names = {f"extracted_via_{n}": f"x{i}" for i, (_, n) in enumerate(PINNED_PATTERNS)}
         self.repair_names = {n: f"r{i}" for i, (_, _, n) in enumerate(PINNED_REPAIRS)}
+
+    @staticmethod
+    def show_conf(c) -> str:
+        """confidences are k/20-grid values up to float noise: print the nearest small fraction"""
+        return show_rat(Fraction(c).limit_denominator(1000))
+
+    def notes_of(self, r) -> list:
+        notes = []
+        for c in r.coercions_applied:
+            if c in self.pattern_names:
+                notes.append(self.pattern_names[c])
+            elif c in self.repair_names:
+                notes.append(self.repair_names[c])
+            else:
+                notes.append(f"c{REC.cid(c)}")
+        return notes
 
     @staticmethod
     def safe_stats(ch):
@@ -630,6 +660,7 @@ class C11(Prop):
             if t[0] == "schema" and len(t) == 2:
                 spec = t[1]
                 S = self.factory.get(spec)
+                REC.reset_tables()
                 emit(line, "ok")
             elif t[0] == "new" and len(t) == 2:
                 try:
@@ -679,18 +710,58 @@ class C11(Prop):
                     continue
                 if t[0] == "foldx":
                     su = "none" if r.strategy_used is None else self.strat_letter.get(r.strategy_used, "?")
-                    conf = show_rat(Fraction(r.confidence).limit_denominator(1000))
-                    notes = []
-                    for c in r.coercions_applied:
-                        if c in self.pattern_names:
-                            notes.append(self.pattern_names[c])
-                        elif c in self.repair_names:
-                            notes.append(self.repair_names[c])
-                        else:
-                            notes.append(f"c{REC.cid(c)}")
+                    conf = self.show_conf(r.confidence)
+                    notes = self.notes_of(r)
                     atts = [self.strat_letter.get(a.strategy, "?") + show_bool(a.success) for a in r.attempts]
                     head += [su, conf, "[" + ",".join(notes) + "]", "[" + ",".join(atts) + "]"]
                 emit(line, " ".join(head + [calls]), info)
+            elif t[0] == "heal" and len(t) == 4:
+                outs = [unhexs(h) for h in t[3].split(",")]
+                n_calls = [0]
+
+                def scripted(prompt, error_context=None, _outs=outs, _n=n_calls):
+                    i = _n[0]
+                    _n[0] += 1
+                    return _outs[i] if i < len(_outs) else _outs[-1]
+                REC.top = S
+                REC.calls = []
+                REC.describe_schema(S)
+                REC.active = True
+                err = None
+                r = None
+                try:
+                    loop = self.loop_mod.ChaperoneLoop(generator=scripted, chaperone=ch, schema=S, max_retries=int(t[1]),
+                                                       confidence_decay=float(Fraction(t[2])), silent=True)
+                    r = loop.heal("prompt")
+                except Exception as e:
+                    err = e
+                finally:
+                    REC.active = False
+                for el in REC.take_pending():
+                    emit(el, "ok")
+                calls = "calls=[" + ",".join(str(i) for i in REC.calls) + "]"
+                if REC.nondet:
+                    calls += " nondeterministic-library"
+                info = {"op": "heal", "S": S, "result": r, "error": err, "outs": outs, "generator_calls": n_calls[0],
+                        "max_retries": int(t[1])}
+                if err is not None:
+                    emit(line, f"raise:{type(err).__name__} {calls}", info)
+                    continue
+                try:
+                    oc = {"valid_first_try": "v", "healed": "h", "degraded": "d"}.get(r.outcome.value, "?")
+                    atts = [f"{a.attempt_number}{show_bool(a.success)}:{self.show_conf(a.confidence)}" for a in r.attempts]
+                    if r.folded is None:
+                        fo = "none"
+                    else:
+                        f = r.folded
+                        su = "none" if f.strategy_used is None else self.strat_letter.get(f.strategy_used, "?")
+                        fo = " ".join([show_bool(f.valid is True), "none" if f.structure is None else str(REC.sid(f.structure)),
+                                       su, self.show_conf(f.confidence), "[" + ",".join(self.notes_of(f)) + "]"])
+                    emit(line, " ".join([oc, self.show_conf(r.final_confidence), show_bool(r.ubiquitin_tagged),
+                                         "[" + ",".join(atts) + "]", "folded:", fo, calls]), info)
+                except Exception as e:
+                    info["error"] = e
+                    emit(line, f"raise:{type(e).__name__} {calls}", info)
             elif t[0] == "stats":
                 try:
                     s = ch.get_statistics()
@@ -717,6 +788,9 @@ class C11(Prop):
         FS = self.m.FoldingStrategy
         pairs = {}
         for idx, (line, o, x) in enumerate(zip(case["lines"], obs, extra)):
+            if x and x.get("op") == "heal":
+                out.extend(self.oracle_heal(idx, x))
+                continue
             if not x or x.get("op") not in ("fold", "foldx"):
                 continue
             raw, S, r = x["raw"], x["S"], x["result"]
@@ -809,6 +883,49 @@ class C11(Prop):
                 elif a.valid and not same_structure(a.structure, b.structure):
                     out.append(Violation("plain_and_enhanced_agree_on_structure", repr(a.structure)[:150],
                                          repr(b.structure)[:150], max(i1, i2)))
+        return out
+
+    def oracle_heal(self, idx, x):
+        """the same property text, on what the healing loop hands back (it rewrites the validator's confidence)"""
+        out = []
+        FS = self.m.FoldingStrategy
+        if x["error"] is not None:
+            return [Violation("folding_never_raises", "a HealingResult", f"raise:{type(x['error']).__name__}", idx)]
+        r, S = x["result"], x["S"]
+        confs = [("final_confidence", r.final_confidence)] + [(f"attempt {a.attempt_number}", a.confidence) for a in r.attempts]
+        if r.folded is not None:
+            confs.append(("folded.confidence", r.folded.confidence))
+        for name, c in confs:
+            if not (isinstance(c, (int, float)) and 0.0 <= c <= 1.0):
+                out.append(Violation("confidence_in_unit_interval", "[0,1]", f"{name} = {c!r}", idx))
+        f = r.folded
+        if f is not None:
+            if f.confidence == 1.0 and not (f.valid and f.strategy_used == FS.STRICT):
+                out.append(Violation("confidence_one_only_for_strict", "< 1.0", f"{f.confidence} via {f.strategy_used}", idx))
+            if f.valid:
+                raw = f.raw_peptide_chain
+                if not isinstance(f.structure, S):
+                    out.append(Violation("valid_structure_is_schema_instance", f"instance of {S.__name__}",
+                                         type(f.structure).__name__, idx))
+                else:
+                    try:
+                        again = plain_validate(S, f.structure.model_dump())
+                        if not same_structure(again, f.structure):
+                            out.append(Violation("valid_structure_revalidates", repr(f.structure)[:200], repr(again)[:200], idx))
+                    except Exception as e:
+                        out.append(Violation("valid_structure_revalidates", "re-validation succeeds", type(e).__name__, idx))
+                    if raw not in x["outs"]:
+                        out.append(Violation("valid_structure_obtained_from_raw_text", "the text is one the generator produced",
+                                             repr(raw)[:100], idx))
+                    else:
+                        bad = unsupported_leaves(f.structure, S, raw)
+                        if bad:
+                            out.append(Violation("valid_structure_obtained_from_raw_text",
+                                                 "every value is present in the raw text", f"made-up values {bad!r}"[:300], idx))
+            elif f.structure is not None:
+                out.append(Violation("invalid_has_no_structure_and_a_trace", "structure None", repr(f.structure)[:100], idx))
+        if r.final_confidence == 1.0 and not (f is not None and f.valid and f.strategy_used == FS.STRICT):
+            out.append(Violation("confidence_one_only_for_strict", "< 1.0", f"final_confidence {r.final_confidence}", idx))
         return out
 
     def nontrivial(self, case, obs):
@@ -977,8 +1094,43 @@ class C11(Prop):
                     lines.append("resetstats")
                 elif x < 0.3:
                     lines.append("stats")
+                elif x < 0.38:
+                    # another schema class with the same name and the same field names, on the same Chaperone,
+                    # then the byte-identical text again
+                    fields = self.variant_fields(rng, fields)
+                    lines.append("schema " + self.spec_of(fields))
+                    for op in rng.choice([["fold", "foldx"], ["foldx"], ["fold"]]):
+                        lines.append(f"{op} {hexs(raw)} {st}")
+                elif x < 0.5:
+                    lines.append(self.rand_heal(rng, fields))
             lines.append("stats")
             yield {"lines": lines, "note": "random"}
+
+    DECAYS = ["1/10", "1/10", "0", "1/4", "1/2", "1", "2", "1/20", "3/10", "1/8"]
+
+    def rand_heal(self, rng, fields):
+        """a healing run: k texts that (mostly) misfold, then one that (mostly) folds"""
+        inst = {n: self.rand_val(rng, k) for n, k in fields}
+        good = real_json.dumps(inst)
+        if rng.random() < 0.4:
+            good = self.corrupt(rng, good)
+        k = rng.choice([0, 0, 1, 1, 2, 3, 4, 6, 11, 12])
+        bads = [rng.choice(["nope", "{", "[]", '{"zz": 1}', good[:max(0, len(good) // 2)]]) for _ in range(k)]
+        if len(set(bads)) > 1 and k > 4:
+            bads = [bads[0]] * k                       # long histories: keep the protocol small
+        max_retries = rng.choice([0, 1, 2, 3, 3, 5, 12, k, max(0, k - 1)])
+        return f"heal {max_retries} {rng.choice(self.DECAYS)} " + ",".join(hexs(o) for o in bads + [good])
+
+    def variant_fields(self, rng, fields):
+        swap = {"int": "str", "str": "int", "float": "str", "bool": "str", "li": "ls", "ls": "li", "oi": "os", "os": "oi",
+                "oid": "osd", "osd": "oid", "id": "sd", "sd": "id", "la": "ls"}
+        out = []
+        for n, k in fields:
+            if isinstance(k, tuple):
+                out.append((n, ("n", self.variant_fields(rng, k[1]))))
+            else:
+                out.append((n, swap.get(k, k) if rng.random() < 0.7 else k))
+        return out
 
     def exhaustive(self, tier):
         spec = "a:int,b:osd"
@@ -1028,7 +1180,25 @@ class C11(Prop):
                 edge_cases.append({"lines": [f"schema {spec2}", "new none", f"foldx {hexs(raw)} {st}",
                                              f"fold {hexs(raw)} {st}", "stats"],
                                    "note": "every entry of the coercion table, applicable and not"})
-        return [{"name": "deep nesting, scalar and null documents, coercion table x single strategies", "cases": edge_cases},
+        heal_cases = []
+        good, bad, prose = '{"a": 1}', "nope", 'so {"a": "2"} ok'
+        for decay in ["0", "1/10", "1/2", "1", "2"]:
+            for max_retries in [0, 1, 3, 12]:
+                for k in [0, 1, 2, 3, 11, 12, 13]:
+                    for final in ([good, prose] if tier != "quick" or k in (0, 3, 11) else [good]):
+                        outs = ",".join(hexs(o) for o in [bad] * k + [final])
+                        heal_cases.append({"lines": [f"schema {spec}", "new none", f"heal {max_retries} {decay} {outs}", "stats"],
+                                           "note": "healing loop: decay x max_retries x misfolds before a foldable text"})
+        switch_cases = []
+        for raw in ['{"id": 7, "flag": "yes"}', '  {"id": "7", "flag": true}']:
+            for st in ["none", "s", "ls"]:
+                switch_cases.append({"lines": ["schema id:int,flag:str", "new none", f"fold {hexs(raw)} {st}", f"foldx {hexs(raw)} {st}",
+                                               "schema id:str,flag:bool", f"foldx {hexs(raw)} {st}", f"fold {hexs(raw)} {st}",
+                                               "schema id:int,flag:str", f"fold {hexs(raw)} {st}", "stats"],
+                                     "note": "two schema classes of the same name on one Chaperone, same text"})
+        return [{"name": "healing loop: decay x max_retries x number of misfolds", "cases": heal_cases},
+                {"name": "same-named schema classes alternating on one Chaperone", "cases": switch_cases},
+                {"name": "deep nesting, scalar and null documents, coercion table x single strategies", "cases": edge_cases},
                 {"name": "all 66 strategy lists (None, [], every ordered subset) x representative raw texts", "cases": cases},
                 {"name": "every str.isspace code point and its neighbours around clean JSON", "cases": ws_cases},
                 {"name": "constructor strategies x call strategies (`or` glue)", "cases": ctor_cases}]
